@@ -468,3 +468,36 @@ def check(facts, rep, tier, cfg):
     if "server" in crate.features:
         rep.floor("C17.R7", "identity reload functions", k7, 1)
 
+    # ---- R8 per-connection configuration: what the connector verifies with is built from the arguments of *this* call
+    rep.rule("C17.R8", "the TLS connector that performs a client handshake is built in that call from make_client_config(this call's certificate, key, "
+                       "CA and skip-verify arguments); it is never taken from process-wide state (a cached connector keeps authenticating with the "
+                       "first caller's settings)")
+    k8 = 0
+    for b in crate.bodies:
+        if "/src/tls/" not in b.file:
+            continue
+        tr = None
+        for bi, t in b.calls():
+            c = callee(t)
+            if not c or c["name"] != "connect" or "TlsConnector" not in c["path"] + c.get("def", ""):
+                continue
+            tr = tr or Tracer(facts, b)
+            k8 += 1
+            where = "%s (%s)" % (loc_str(t["loc"]), b.path)
+            key = "connector-built-per-call/%s" % b.path.split("::{")[0]
+            v = tr.operand(t["args"][0])
+            statics = [x for x in walk(v) if x.kind == "static"]
+            built = any(x.kind == "call" and x[6] == "make_client_config" for x in walk(v))
+            cached = [x[6] for x in walk(v) if x.kind == "call" and x[6] in ("get_or_init", "get_or_try_init", "get_or_insert_with", "force", "get")
+                      and ("OnceCell" in x[1] + x[2] or "OnceLock" in x[1] + x[2] or "Lazy" in x[1] + x[2])]
+            if statics or cached:
+                rep.bad("C17.R8", key, where,
+                        "the connector used for this handshake comes from process-wide state (%s): it was built from the settings of whichever call "
+                        "ran first, so a later call with a different CA / client certificate / skip-verify flag authenticates the server with the "
+                        "wrong settings" % (", ".join(sorted(set(cached))) or "a static"))
+            elif not built:
+                rep.bad("C17.R8", key, where, "the connector used for this handshake does not derive from make_client_config(..) in this call")
+            else:
+                rep.ok("C17.R8", key, where, "connector <- make_client_config(arguments of this call)")
+    if "client" in crate.features or "default" in crate.features:
+        rep.floor("C17.R8", "client TLS handshake sites", k8, 1)
